@@ -187,6 +187,9 @@ def _mime_lite(check: Check):
     check.analysed(fi)
     for inv in roundcheck.inv_calls(ff):
       lm = wmean.analyse_loop_mean(ff, inv)
+      for kind, text, node in lm.problems:
+        # the clipped deltas are averaged with the weights they were added with (shared with C12)
+        check.ob(f'R-WMEAN.{kind}', fi, txt(inv)[:90], False, text, node=node)
       if lm.unrecognised or lm.loop is None or lm.x is None:
         continue
       x = lm.x
@@ -384,6 +387,15 @@ def _ignore_grads(check: Check):
   if len(sites) == 1:
     oc = sites[0]
     args_ok = filtered_of(oc.grads) == p_grads and filtered_of(oc.params) == p_params and ff.param_of(oc.opt_state) == p_opt
+  if len(sites) == 1:
+    oc = sites[0]
+    for _, rv in ff.returns():
+      if isinstance(rv, ast.Tuple) and len(rv.elts) == 2:
+        carries = sk.derives_from_result(ff, rv.elts[0], oc.res_opt)
+        stale = ff.param_of(rv.elts[0]) == p_opt and not carries
+        check.ob('R-IGNORE.state', ap, 'return ' + txt(rv.elts[0])[:40], True if carries else (False if stale else None),
+                 'the optimizer state returned is the one the base optimizer produced (returning the state that came in freezes '
+                 'momentum / Adam moments at their first value)', node=rv)
   check.ob('R-IGNORE', ap, 'base.apply(filter(grads), opt_state, filter(params))', same_fn and args_ok,
            f'the same name filter is applied to gradients and parameters (ok={same_fn}) and the base optimizer only sees the '
            f'filtered trees (ok={args_ok})')
